@@ -2294,14 +2294,13 @@ lyd_dup(const struct lyd_node *node, const struct ly_ctx *trg_ctx, struct lyd_no
         } else {
             /* decide insert order */
             insert_order = (options & LYD_DUP_NO_LYDS) ? LYD_INSERT_NODE_LAST_BY_SCHEMA : LYD_INSERT_NODE_DEFAULT;
+            if (first_llist && (orig->schema != first_llist->schema)) {
+                /* all the (leaf-)list instances duplicated */
+                first_llist = NULL;
+            }
             if (first_llist) {
-                if (orig->schema != first_llist->schema) {
-                    /* all the (leaf-)list instances duplicated */
-                    first_llist = NULL;
-                } else {
-                    /* duplicating all the instances of a (leaf-)list, no need to change their order */
-                    insert_order = LYD_INSERT_NODE_LAST;
-                }
+                /* duplicating all the instances of a (leaf-)list, no need to change their order */
+                insert_order = LYD_INSERT_NODE_LAST;
             } else if (orig->schema && (orig->schema->nodetype & (LYS_LIST | LYS_LEAFLIST))) {
                 /* duplicating the first (leaf-)list instance, duplicate the rest more efficiently */
                 first_llist = orig;
